@@ -41,6 +41,15 @@ fn settings(v: &Value) -> PoolSettings {
     };
     s.query_parser_enabled = v.get("parser").and_then(|x| x.as_bool()).unwrap_or(false);
     s.query_parser_read_write_splitting = v.get("splitting").and_then(|x| x.as_bool()).unwrap_or(false);
+    // db_activity_based_routing: a database name never used before is "Initializing" for
+    // db_activity_init_delay ms from its first statement (deterministic with a long delay)
+    s.db_activity_based_routing = v.get("activity").and_then(|x| x.as_bool()).unwrap_or(false);
+    if let Some(d) = v.get("db").and_then(|x| x.as_str()) {
+        s.db = d.to_string();
+    }
+    if let Some(n) = v.get("activity_init_delay").and_then(|x| x.as_u64()) {
+        s.db_activity_init_delay = n;
+    }
     s.primary_reads_enabled = v.get("primary_reads").and_then(|x| x.as_bool()).unwrap_or(true);
     if let Some(n) = v.get("regex_search_limit").and_then(|x| x.as_u64()) {
         s.regex_search_limit = n as usize;
